@@ -384,6 +384,29 @@ def check_c01_c02(c, result):
                 result.violations.append(payload_replay(pid, 'a condition that cannot be evaluated on some entities (no first argument): %s' % ('a matching entity is not reported' if miss else 'an entity is reported on which the condition fails or is false'),
                                                         [t], 'expected %d, reported %d; e.g. %s' % (sum(want13[qid].values()), sum(got.values()), str(list((miss or extra).items())[:1])[:300]), c.files))
                 break
+    # (2l) conditions on the single-valued Javadoc accessors; the truth is the FIRST tag of that name in the entity's
+    # own comment (graph dump), whatever other tags stand around it
+    docn = [(n, objview._doc(n['doc'])) for n in c.nodes if engine.hexs(n['type']) == 'method_declaration' and n.get('doc', '~') != '~']
+    tq14, want14 = [], {}
+    for tagname, accn in (('return', 'GetCommentReturn'), ('throws', 'GetCommentThrows'), ('see', 'GetCommentSee'), ('author', 'GetCommentAuthor'), ('since', 'GetCommentSince')):
+        firsts = Counter(objview._first(d['tags'], tagname) for n, d in docn if d and objview._first(d['tags'], tagname) and '\n' not in objview._first(d['tags'], tagname))
+        for j, (v, _) in enumerate(firsts.most_common(3)):
+            qid = 'jd_%s%d' % (tagname, j)
+            tq14.append((qid, 'FROM method_declaration AS m WHERE m.getDoc().%s() == %s SELECT m.getName()' % (accn, querygen.lit(v))))
+            want14[qid] = Counter((engine.hexs(n['file']), int(n['line']), engine.hexs(n['snippet'])) for n, d in docn if d and objview._first(d['tags'], tagname) == v)
+    if tq14:
+        res14, _, _ = c.run(tq14)
+        c.stats['javadoc_condition_queries'] = len(tq14)
+        for qid, t in tq14:
+            oc, payload = res14.get(qid, ('missing', ''))
+            if oc != 'ok':
+                continue
+            got = Counter(x[0] for x in tuples_of(payload, 1).elements())
+            miss, extra = want14[qid] - got, got - want14[qid]
+            if (pid == 'C01' and miss) or (pid == 'C02' and extra):
+                result.violations.append(payload_replay(pid, 'a condition on a Javadoc tag: %s' % ('a matching entity is not reported' if miss else 'an entity is reported whose comment does not say so'),
+                                                        [t], 'expected %d, reported %d; e.g. %s' % (sum(want14[qid].values()), sum(got.values()), str(list((miss or extra).items())[:1])[:300]), c.files))
+                break
     # (2d) string literals with multi-byte characters in conditions that are TRUE for (almost) every entity, with and
     # without predicates: a condition cut or re-encoded wrongly loses every match
     tq7, k7 = [], {}
@@ -590,6 +613,9 @@ def check_c12(c, result):
               'predicate hit2(string v, string w) { wanted(v) && !wanted(w) } ')
     forced.append(([('md', 'method_declaration')], ('patom', 'hit(md.getName())'), ('patom', 'hit(md.getReturnType())'), ('patom', 'hit(md.getVisibility())'), NESTED))
     forced.append(([('md', 'method_declaration')], ('patom', 'hit2(md.getReturnType(), md.getName())'), ('patom', 'hit2(md.getName(), md.getVisibility())'), ('patom', 'hit(md.getName())'), NESTED))
+    # two Javadoc tags of the same entities, read in both orders (one of them written twice in the comment)
+    forced.append(([('md', 'method_declaration')], ('atom', 'md.getDoc().GetCommentAuthor() == "bob"'), ('atom', 'md.getDoc().GetCommentSee() == "Alpha"'), ('atom', 'md.getDoc().GetCommentSee() == "Gamma"')))
+    forced.append(([('md', 'method_declaration')], ('atom', 'md.getDoc().GetCommentReturn() == "the clamped value"'), ('atom', 'len(md.getDoc().GetCommentParam()) == 2'), ('atom', 'md.getDoc().GetCommentThrows() == "Alpha when a"')))
     for i in range(N[c.tier]['C12'] + len(forced)):
         fdecl = ''
         if i < len(forced):
@@ -1307,6 +1333,15 @@ def check_c16(c, result):
     for i, k in enumerate(kinds):
         poison.append(('g%d' % i, 'FROM %s AS x WHERE x.getDoc().NumberOfCommentLines >= 0 SELECT x.getDoc()' % k))
         poison.append(('d%d' % i, 'FROM %s AS x SELECT x' % k))
+    # every getter of the model objects (statement parts, block statements, object-creation arguments, Javadoc tags):
+    # reading through them must leave the loaded graph as it is
+    import objview
+    present = set(engine.hexs(n['type']) for n in c.nodes)
+    for pid_ in ('C06', 'C05'):
+        for k_, items in objview.views(pid_).items():
+            if k_ in present:
+                for j_, (expr_, _f) in enumerate(items):
+                    poison.append(('ov_%s_%s_%d' % (pid_, k_, j_), 'FROM %s AS x SELECT %s' % (k_, expr_)))
     poison += [('bad0', 'FROM WHERE'), ('bad1', 'FROM method_declaration AS m WHERE m.nope() SELECT m'), ('bad2', 'SELECT'),
                ('bad3', 'FROM method_declaration AS m WHERE zz.getName() == "a" SELECT m')]
     # confusable neighbours: the same WHERE / SELECT text under another FROM (an alias dropped, or the
